@@ -1044,5 +1044,5 @@ def plan(tier):
     ]
   return [
     Enum("permutations", lambda: _enum(5), shards=16),
-    Hyp("histories", lambda: _strategy(tier), examples=60000, shards=16),
+    Hyp("histories", lambda: _strategy(tier), examples=300000, shards=16),
   ]
